@@ -165,3 +165,37 @@ theorem varLoop_leb (w : Nat) (fuel num n : Nat) (V : BitVec w) (rest : Bytes) (
       · simp only [List.length_cons]; omega
 
 end GoMC.Lemmas
+
+namespace GoMC.Lemmas
+open GoMC GoMC.Model
+
+/-- the VarInt/VarLong read loop cannot observe how its source fragments the bytes -/
+theorem fragInv_varLoop (w fuel num : Nat) (V : BitVec w) : Rd.FragInv (varLoop w fuel num V) := by
+  induction fuel generalizing num V with
+  | zero => exact Rd.fragInv_fail
+  | succ fuel ih =>
+    unfold varLoop
+    apply Rd.fragInv_bind Rd.fragInv_readByte
+    intro sec
+    split
+    · exact ih _ _
+    · exact Rd.fragInv_pure _
+
+/-- a successful VarInt/VarLong read does not depend on what follows -/
+theorem extStable_varLoop (w fuel num : Nat) (V : BitVec w) : Rd.ExtStable (varLoop w fuel num V) := by
+  induction fuel generalizing num V with
+  | zero => exact Rd.extStable_fail
+  | succ fuel ih =>
+    unfold varLoop
+    apply Rd.extStable_bind Rd.extStable_readByte
+    intro sec
+    split
+    · exact ih _ _
+    · exact Rd.extStable_pure _
+
+theorem fragInv_varIntRead : Rd.FragInv varIntRead := fragInv_varLoop _ _ _ _
+theorem fragInv_varLongRead : Rd.FragInv varLongRead := fragInv_varLoop _ _ _ _
+theorem extStable_varIntRead : Rd.ExtStable varIntRead := extStable_varLoop _ _ _ _
+theorem extStable_varLongRead : Rd.ExtStable varLongRead := extStable_varLoop _ _ _ _
+
+end GoMC.Lemmas
